@@ -284,6 +284,7 @@ def entry_points(rep, ctx, r, report):
             "time": set(conv.time_units)}
     cand = ["bq", "", "Bq ", " Bq", "num ", "xx", None, 5, "BQ", "kbq", "Kg", "mole", "S", "sec ", "yrs", "µs",
             "readable", "activity_frac", "mass_frac", "mol_frac", "Bq\n", "g,", "ci"]
+    good["amount-activity"] = set(conv.mass_units) | set(conv.moles_units) | {"num"}     # a stable nuclide has no activity
     allu = sorted(good["amount"] | good["time"])
     unit_eps = {
         "Inventory": ("amount", lambda u: rd.Inventory({"H-3": 1.0}, u)),
@@ -307,6 +308,26 @@ def entry_points(rep, ctx, r, report):
         "series_time": ("time", lambda u: fresh().decay_time_series(1.0, u, npoints=2)),
         "series_units": ("amount+frac", lambda u: fresh().decay_time_series(1.0, "s", decay_units=u, npoints=2)),
     }
+    # the same entry points on a STABLE nuclide (infinite half-life, zero decay constant: the code paths that skip work)
+    def fresh_s(C=rd.Inventory):
+        return C({"He-3": 1.0}, "num")
+    unit_eps.update({
+        "masses[stable]": ("mass", lambda u: fresh_s().masses(u)),
+        "moles[stable]": ("moles", lambda u: fresh_s().moles(u)),
+        "massesHP[stable]": ("mass", lambda u: fresh_s(rd.InventoryHP).masses(u)),
+        "molesHP[stable]": ("moles", lambda u: fresh_s(rd.InventoryHP).moles(u)),
+        "decay[stable]": ("time", lambda u: fresh_s().decay(1.0, u)),
+        "decayHP[stable]": ("time", lambda u: fresh_s(rd.InventoryHP).decay(1.0, u)),
+        "cumulative_decays[stable]": ("time", lambda u: fresh_s().cumulative_decays(1.0, u)),
+        "cumulative_decaysHP[stable]": ("time", lambda u: fresh_s(rd.InventoryHP).cumulative_decays(1.0, u)),
+        "half_life[stable]": ("time+readable", lambda u: dd.half_life("He-3", u)),
+        "half_lives[stable]": ("time+readable", lambda u: fresh_s().half_lives(u)),
+        "half_livesHP[stable]": ("time+readable", lambda u: fresh_s(rd.InventoryHP).half_lives(u)),
+        "Nuclide.half_life[stable]": ("time+readable", lambda u: rd.Nuclide("He-3").half_life(u)),
+        "series_time[stable]": ("time", lambda u: fresh_s().decay_time_series(1.0, u, npoints=2)),
+        "Inventory[stable]": ("amount-activity", lambda u: rd.Inventory({"He-3": 1.0}, u)),
+        "InventoryHP[stable]": ("amount-activity", lambda u: rd.InventoryHP({"He-3": 1.0}, u)),
+    })
     for ep, (kind, fn) in unit_eps.items():
         ok_set = set()
         for part in kind.split("+"):
